@@ -91,6 +91,9 @@ class List(Environment):
                 break
         Environment.digest(self, tokens) 
 
+# An \item belongs to the list that contains it
+List.item.container = List
+
 #
 # Counters -- enumi, enumii, enumiii, enumiv
 #            
